@@ -14,6 +14,12 @@ prop("C19", claimed=True, level="model_checking", engine="E-SEQ",
      note="Alphabet and length bound; stemmer and stop-word filters instantiated for English / a fixed word list; texts outside the alphabet are not covered except three designated long texts.",
      design_ref="3/C19")
 
+prop("C16", claimed=True, level="model_checking", engine="E-SEQ (isolated workers)",
+     technique="bounded-exhaustive enumeration of all strings <= L over a 31-symbol grammar alphabet and all sequences <= M of grammar tokens through the real strict / lenient parsers in watchdog-isolated sub-processes",
+     text="Every string of <= 4 symbols (quick; 5 thorough) and every sequence of <= 3 grammar tokens (4 thorough) plus designated long / deeply nested inputs is parsed by parse_query, parse_query_lenient and QueryParser::{parse_query, parse_query_lenient}; no panic / abort / hang, lenient always yields a query, and whenever strict succeeds lenient yields the same AST without errors (QueryParser level: no errors and the same documents on a 12-document corpus).",
+     note="Alphabet, length bounds; hang = no progress for 0.6 s (30 s for long inputs) or 2 GiB address-space exhaustion; QueryParser agreement is checked through the document sets on a fixed corpus. Recorded defects of the pinned tree are narrow signatures in known_findings.json.",
+     design_ref="3/C16")
+
 ALL = ["C%02d" % i for i in range(1, 21)]
 REASON_TODO = "check not built yet in this revision of /verif (design in DESIGN.md section 3); will be claimed when its engine lands"
 
